@@ -129,6 +129,10 @@ fn materialise(root: &Path, n: usize, adj: &[Vec<bool>], variant: u64, dangling:
             }
             pkg.push_str("[[dependencies]]\nuri = \"../some/relative/path\"\n[[dependencies]]\nuri = \"urn:cnb:registry:heroku/nodejs@1.2.3\"\n");
             fs::write(d.join("package.toml"), pkg).unwrap();
+            // variant bit 6: the composite's directory also holds a Cargo.toml (a meta buildpack at a Cargo workspace root)
+            if variant >> 6 & 1 == 1 {
+                fs::write(d.join("Cargo.toml"), "[workspace]\nmembers = []\n").unwrap();
+            }
         } else {
             fs::write(d.join("buildpack.toml"), format!("api = \"0.10\"\n[buildpack]\nid = \"{}\"\nversion = \"1.0.0\"\n[[targets]]\nos = \"linux\"\narch = \"amd64\"\n", id_of(i))).unwrap();
             fs::write(d.join("Cargo.toml"), format!("[package]\nname = \"n{i}\"\nversion = \"0.0.0\"\n")).unwrap();
@@ -142,6 +146,15 @@ fn materialise(root: &Path, n: usize, adj: &[Vec<bool>], variant: u64, dangling:
     fs::create_dir_all(&other).unwrap();
     fs::write(other.join("buildpack.toml"), "api = \"0.10\"\n[buildpack]\nid = \"vp/other\"\nversion = \"1.0.0\"\n").unwrap();
     fs::create_dir_all(root.join("not-a-buildpack/src")).unwrap();
+    // a second foreign buildpack at the directory the NEXT larger workspace uses for a real node (matters where a path is re-used)
+    if n < 12 {
+        let names = if variant >> 4 & 1 == 1 { &DIRS_PREFIX } else { &DIRS };
+        let next = root.join(names[(n + (variant as usize / 4 % 2) * 5) % names.len()]);
+        if !next.exists() {
+            fs::create_dir_all(&next).unwrap();
+            fs::write(next.join("buildpack.toml"), "api = \"0.10\"\n[buildpack]\nid = \"vp/other2\"\nversion = \"1.0.0\"\n").unwrap();
+        }
+    }
 }
 
 fn selections(n: usize, limit: Option<(usize, &mut Lcg)>) -> Vec<Vec<usize>> {
@@ -290,8 +303,11 @@ pub fn run(args: &[String]) {
             if counter % nshards != shard {
                 continue;
             }
-            let variant = (counter / nshards + seed) % 64;
-            check_dag(&work.join(format!("d{counter}")), n, &adj, variant, &sels, &mut tally);
+            let variant = ((counter.wrapping_mul(0x9E37_79B9_7F4A_7C15) >> 40) + seed) % 128;
+            // every third graph is laid out at one and the same path (removed and rebuilt in between): nothing learnt about a path
+            // while loading an earlier workspace may leak into the next
+            let root = if counter % 3 == 0 { work.join("reused") } else { work.join(format!("d{counter}")) };
+            check_dag(&root, n, &adj, variant, &sels, &mut tally);
         }
     }
     let exhaustive_dags = tally.dags;
@@ -317,7 +333,8 @@ pub fn run(args: &[String]) {
             }
         }
         let sels = selections(n, Some((40, &mut rng)));
-        check_dag(&work.join(format!("r{r}")), n, &adj, rng.below(64), &sels, &mut tally);
+        let root = if r % 2 == 0 { work.join("reused") } else { work.join(format!("r{r}")) };
+        check_dag(&root, n, &adj, rng.below(128), &sels, &mut tally);
     }
     // dangling dependency
     let mut dangling_checked = 0;
@@ -336,7 +353,7 @@ pub fn run(args: &[String]) {
         }
         let who = rng.below(n as u64) as usize;
         let root = work.join(format!("m{r}"));
-        materialise(&root, n, &adj, rng.below(64), Some(who));
+        materialise(&root, n, &adj, rng.below(128), Some(who));
         dangling_checked += 1;
         match build_libcnb_buildpacks_dependency_graph(&root) {
             Ok(_) => {
